@@ -56,6 +56,15 @@ func ConsumeByWebsocket(logger *xlog.Logger, path string, addr string, conn webs
 		xlog.F("path", path),xlog.F("ext", "flv"),
 		xlog.F("addr", addr)))
 
+	// 本函数运行在独立的 goroutine 中；GetOrCreate 可能触发拉流(解析摄像头返回的数据)，
+	// 必须在其之前就准备好 recover，否则 panic 会终止整个进程
+	defer func() {
+		if r := recover(); r != nil {
+			xlog.Errorf("ws-flv: panic; %v \n %s", r, debug.Stack())
+			conn.Close()
+		}
+	}()
+
 	stream := media.GetOrCreate(path)
 	if stream == nil {
 		conn.Close()
